@@ -555,9 +555,11 @@ impl<'a> World<'a> {
                     let j = (frac * 4096.0) as i32 % 22;
                     (1.0e-6 * (1.001 + frac) * (2.0f64).powi(j)).min(0.25 * width)
                 };
+                // (a node at zero is also asked for as -0.0, and a node at -0.0 as +0.0: the same point)
+                let flip0 = |v: f64| if v == 0.0 && *frac < 0.5 { -v } else { v };
                 let x = match kind % 8 {
-                    0 => xl,
-                    1 => xr,
+                    0 => flip0(xl),
+                    1 => flip0(xr),
                     2 => 0.5 * (xl + xr),
                     6 => xr - near_d(xr - xl),
                     7 => xl + near_d(xr - xl),
@@ -570,6 +572,9 @@ impl<'a> World<'a> {
                         lo + (hi - lo) * frac
                     }
                 };
+                if x == 0.0 && ((kind % 8 == 0 && x.to_bits() != xl.to_bits()) || (kind % 8 == 1 && x.to_bits() != xr.to_bits())) {
+                    self.stats.count("probe.node_at_zero_queried_with_other_sign");
+                }
                 // far from the origin the point is rounded to the grid of doubles there: keep it at least 1e-6
                 // away from both nodes (the property's domain), else take the middle of the cell
                 let x = if x != xl && x != xr && (x - xl < 1.0e-6 || xr - x < 1.0e-6) { 0.5 * (xl + xr) } else { x };
@@ -738,9 +743,8 @@ impl<'a> World<'a> {
                     )
                 });
                 self.stats.count("op.apply_2d_callback_panics");
-                if r.is_ok() && calls.get() > at {
-                    return vfail("stored-data", "apply-panic-swallowed", self, format!("apply(f, {var}): the callback panicked at its invocation {at}, yet apply returned normally"));
-                }
+                // (whether the panic reaches the caller is not C19's business; what is stored afterwards is)
+                let _ = r;
                 for i in 0..nx {
                     for j in 0..ny {
                         let got = self.m2.get_nodes_vars(i, j);
